@@ -147,7 +147,7 @@ pub fn render_step(s: &Step, rng: &mut Rng, sugar: bool) -> (Option<char>, Strin
     let mut sep = None;
     let mut flags: Vec<String> = Vec::new();
     if s.inv {
-        flags.push(if rng.chance(0.25) { "inv=true".into() } else { "inv".into() });
+        flags.push(if rng.chance(0.25) { format!("inv={}", rng.pick(&["true", "true", "True", "TRUE"])) } else { "inv".into() });
     }
     let mut of = s.omit_fwd;
     let mut oi = s.omit_inv;
@@ -161,10 +161,10 @@ pub fn render_step(s: &Step, rng: &mut Rng, sugar: bool) -> (Option<char>, Strin
         }
     }
     if of {
-        flags.push(if rng.chance(0.25) { "omit_fwd=true".into() } else { "omit_fwd".into() });
+        flags.push(if rng.chance(0.25) { format!("omit_fwd={}", rng.pick(&["true", "true", "True", "TRUE"])) } else { "omit_fwd".into() });
     }
     if oi {
-        flags.push(if rng.chance(0.25) { "omit_inv=true".into() } else { "omit_inv".into() });
+        flags.push(if rng.chance(0.25) { format!("omit_inv={}", rng.pick(&["true", "true", "True", "TRUE"])) } else { "omit_inv".into() });
     }
     rng.shuffle(&mut flags);
     let mut name_at = 0;
